@@ -8,6 +8,7 @@
 package outside
 
 import (
+	"bytes"
 	"encoding/binary"
 	"fmt"
 	"net/netip"
@@ -32,7 +33,8 @@ const (
 var names = []string{"A", "B", "R", "X"}
 
 type exec struct {
-	net *relaynet.Net
+	net  *relaynet.Net
+	seen bool // the datagram handed to the relay contained the end-to-end plaintext
 }
 
 func (e *exec) nameOfHost(n *relaynet.Node, h nebula.VerifHostInfo) string {
@@ -126,6 +128,7 @@ func (e *exec) produce(kind string) (pkt []byte, rx int, sender int, ok bool) {
 	net := e.net
 	A, B, X := net.Nodes[nA], net.Nodes[nB], net.Nodes[nX]
 	net.Take()
+	e.seen = false
 	last := func() ([]byte, bool) {
 		q := net.Take()
 		if len(q) == 0 {
@@ -159,11 +162,14 @@ func (e *exec) produce(kind string) (pkt []byte, rx int, sender int, ok bool) {
 		return p, nA, nB, ok
 	case "rmsg", "fwd":
 		// X -> (R) -> A: the datagram X emits is addressed to R
-		X.SendTun(relaynet.IPv4Packet(X.Vpn, A.Vpn, 1000, 2000, []byte("ping")))
+		plain := relaynet.IPv4Packet(X.Vpn, A.Vpn, 1000, 2000, []byte("ping-through-relay"))
+		X.SendTun(plain)
 		p, ok := last()
 		if !ok {
 			return nil, 0, 0, false
 		}
+		// what the relay gets to see must not contain the plaintext (nor its payload)
+		e.seen = bytes.Contains(p, plain) || bytes.Contains(p, []byte("ping-through-relay"))
 		if kind == "fwd" {
 			return p, nR, nX, true
 		}
@@ -330,17 +336,18 @@ func newExec(t *testing.T) func([]string) string {
 			} else {
 				pkt = e.mutate(pkt, 0, mut)
 			}
+			seen := e.seen
 			if mut[0] == "replay" {
 				e.observe(rx, from, pkt)
 			}
-			return e.observe(rx, from, pkt)
+			return e.observe(rx, from, pkt) + " seen=" + hlib.B(seen)
 		case "recverr":
 			// recverr <idxsym> <src>: a forged, unencrypted recv_error datagram for A
 			if e.net == nil {
 				return "bad-op"
 			}
 			b := header.Encode(make([]byte, header.Len), header.Version, header.RecvError, 0, e.symIdx(a[1]), 0)
-			return e.observe(nA, e.src(a[2], nB), b)
+			return e.observe(nA, e.src(a[2], nB), b) + " seen=0"
 		}
 		return "bad-op"
 	}
@@ -383,15 +390,18 @@ func gen(r *hlib.Rand, n int, tier, profile string, emit func(string, ...any)) {
 		steps := r.Range(15, 60)
 		for k := 0; k < steps; k++ {
 			kind := hlib.Pick(r, kinds...)
-			if kind == "close" && !r.Chance(1, 4) {
+			if kind == "close" && !r.Chance(1, 8) {
 				kind = "msg"
+			}
+			if profile == "C15" && r.Chance(2, 3) {
+				kind = hlib.Pick(r, "rmsg", "rmsg", "fwd")
 			}
 			src := hlib.Pick(r, "own", "own", "own", "other", "mynet")
 			switch x := r.Intn(100); {
 			case x < 30:
 				emit("pkt %s %s out none", kind, src)
 			case x < 36:
-				emit("recverr %s %s", hlib.Pick(r, "rB", "rB", "B", "unknown", "zero", "R"), hlib.Pick(r, "own", "own", "other", "mynet"))
+				emit("recverr %s %s", hlib.Pick(r, "rB", "B", "unknown", "zero", "R", "rB"), hlib.Pick(r, "own", "other", "other", "mynet"))
 			case x < 50 && (kind == "rmsg" || r.Chance(1, 3)):
 				// a lying relay: rewrites the relayed payload and re-seals it
 				m := genMut(r)
